@@ -339,6 +339,16 @@ func schedScenarios(thorough bool) []schedItem {
 		out = append(out, schedItem{Scen{Graph: "G23", Pair: "two-reg", Opt: "referrers", Feat: f, Pre: "empty", Stall: true}, 1, false})
 	}
 	out = append(out, schedItem{Scen{Graph: "G23", Pair: "reg-dir", Opt: "referrers", Feat: "full", Pre: "empty"}, 1, false})
+	// a client that has been used before the copy (response cache on)
+	for _, g := range []string{"G13", "G23"} {
+		for _, p := range []string{"two-reg", "reg-dir", "same-reg-grant"} {
+			for _, opt := range []string{"referrers", "referrers-filter"} {
+				for _, wm := range []string{"list-filtered", "list", "head"} {
+					out = append(out, schedItem{Scen{Graph: g, Pair: p, Opt: opt, Feat: "full", Pre: "empty", Warm: wm}, 0, false})
+				}
+			}
+		}
+	}
 	// one persistent delay (a goroutine stalled while all its siblings run on) on the graphs with
 	// shared or attached content
 	for _, g := range []string{"G3", "G4", "G5", "G13", "G14", "G15", "G19", "G21"} {
